@@ -251,6 +251,38 @@ def rule_trivia(ck, facts, loss=True):
             ck.bad(R, "overwrite|%s|insert" % f.short, "pre-parser: the pending trivia is stored with `insert`, which replaces whatever trivia that token already had in the map (a token that received trailing trivia at an earlier line break loses it); the other sinks extend the entry" , f.where(t))
     ck.floor(R, "trivia_sinks", sinks, 3)
     ck.ok(R, "sinks|%s" % f.short, {"pending_local": pl, "append/extend sinks": sinks})
+    # ---- the owner of a trivia entry is named by its position among the *syntax* tokens (an index into
+    # token_indices: the parser and the printer look trivia up by that index), never by its raw token index
+    from ..rules.chainwalk import map_field, taint as _taint
+    di2 = DefIndex(f)
+    seeds = []
+    for b, t in f.calls():
+        c = callee(t) or ""
+        if c.split("::")[-1] == "len" and t[5] and t[6] is not None:
+            fld = map_field(f, di2, t[5][0])
+            if fld and fld.endswith("token_indices"):
+                seeds.append(t[6][0])
+    ck.require(R, bool(seeds), "anchor|syntax-token-count", "the pre-parser does not read token_indices.len() (the index space of the trivia maps)")
+    if seeds:
+        T = set()
+        for sd in seeds:
+            T |= _taint(f, [sd])
+        nkeys = 0
+        badk = None
+        for b, t in f.calls():
+            c = callee(t) or ""
+            if c.split("::")[-1] in ("entry", "insert") and ("HashMap" in c or "BTreeMap" in c) and len(t[5]) >= 2:
+                fld = map_field(f, di2, t[5][0])
+                if fld and fld.endswith("trivia_map"):
+                    nkeys += 1
+                    k = t[5][1]
+                    if not (k[0] in ("cp", "mv") and k[1][0] in T):
+                        badk = (t, fld.split("::")[-1])
+        ck.floor(R, "trivia_map_keys", nkeys, 3)
+        if badk is None:
+            ck.ok(R, "owner-index|%s" % f.short, {"keys": nkeys, "derive_from": "token_indices.len()"})
+        else:
+            ck.bad(R, "owner-index|%s" % f.short, "pre-parser: an entry of %s is filed under a key that does not derive from the number of syntax tokens seen so far (token_indices.len()): the maps are indexed by position among the syntax tokens, so trivia filed under a raw token index is attached to a later, non-neighbouring token or to none" % badk[1], f.where(badk[0]))
     # C13 asks that every token is recorded exactly once (partition); which side a comment hangs on is the formatter's
     # concern (C14: its printers read only the trailing trivia of the braces they write themselves)
     rule_partition(ck, facts, f, partition=loss, flag_fresh=not loss)
